@@ -8,6 +8,9 @@ tie     : translator — translate/cxx2lean.py (spec kernel_c07) regenerates lea
           orientationIndexFilter, DD::selfAdd / selfMultiply / operators, OrientationDD, CGAlgorithmsDD::orientationIndex,
           computeIntersect / computeCollinearIntersection; lean/GeosModel/Props/C07Gen.lean proves each equal to the
           hand-written model the theorems are about (every run);
+          model — Model/Kernel/PointLocator.lean ports the general-purpose algorithm::PointLocator (point / line / polygon ring /
+          polygon / collection walk with the Mod-2 rule); Props/C07.lean proves it equal to the specification; streams poly, ring
+          (PointLocator token) and ploc (any geometry tree) tie it to the compiled class;
           correspondence — harness/c07.cpp runs generated lattice inputs (n * 2^k, |n| <= 2^25) through the real
           functions (C++ API and C API) and `drv_c07` answers with the exact specification; an extra stream feeds
           arbitrary finite doubles to the orientation predicate and is answered by the bit-level model.
@@ -22,10 +25,10 @@ PROPS = ["GeosModel.Props.C07"]
 DRV = "drv_c07"
 GENS = [("kernel_c07", "GeosModel/Generated/KernelC07.lean", "GeosModel.Props.C07Gen")]
 
-QUICK = [("orient", 400000), ("orientarb", 150000), ("orientf", 50000), ("ring", 200000), ("poly", 150000), ("segseg", 250000), ("ccw", 100000)]
+QUICK = [("orient", 400000), ("orientarb", 150000), ("orientf", 50000), ("ring", 200000), ("poly", 150000), ("ploc", 150000), ("segseg", 250000), ("ccw", 100000)]
 # thorough: ~75x quick; measured ~8 us/line (orient), ~25 us/line (orientarb), ~12 us/line (ring), ~7 us/line (segseg),
 # ~10 us/line (ccw) on 8 shards of an idle 16-core machine => about 11-13 min in total
-THOROUGH = [("orient", 30000000), ("orientarb", 6000000), ("orientf", 1000000), ("ring", 10000000), ("poly", 6000000), ("segseg", 16000000), ("ccw", 5000000)]
+THOROUGH = [("orient", 30000000), ("orientarb", 6000000), ("orientf", 1000000), ("ring", 10000000), ("poly", 6000000), ("ploc", 5000000), ("segseg", 16000000), ("ccw", 5000000)]
 CHUNK = 4000000          # lines per run_stream call (bounds disk and memory in the thorough tier)
 MAX_PER_STREAM = 3       # violations reported per stream
 
@@ -219,7 +222,8 @@ def handle_orientarb(ctx, exe, disagreements):
 
 
 def handle_exact_stream(ctx, exe, stream, disagreements):
-    """ring / poly / segseg / ccw: the driver answers with the exact specification on grid inputs"""
+    """ring / poly / ploc / segseg / ccw: the driver answers with the exact specification on grid inputs (ploc: with the model of
+    PointLocator, which is proved equal to the specification for polygons and lines and to the Mod-2 rule over the atomic elements)"""
     seen, found = [], False
     for idx, case, exp, got in disagreements:
         if len(seen) >= MAX_PER_STREAM:
@@ -250,7 +254,8 @@ def handle_exact_stream(ctx, exe, stream, disagreements):
                 c2, impl, spec = s
         found = True
         what = {"ring": "point-in-ring: implementation differs from the exact even-odd / on-segment specification on a grid input",
-                "poly": "point-in-polygon (SimplePointInAreaLocator / IndexedPointInAreaLocator / prepared XY / intersects / contains): implementation differs from the exact shell-minus-holes specification on a grid input",
+                "poly": "point-in-polygon (SimplePointInAreaLocator / IndexedPointInAreaLocator / prepared XY / intersects / contains / PointLocator / prepared POINT intersects): implementation differs from the exact shell-minus-holes specification on a grid input",
+                "ploc": "PointLocator (locate / intersects / GEOSPreparedIntersects of a prepared POINT) on a point, line, ring, polygon, MULTI* or collection: implementation differs from the exact location (polygons: shell minus holes; lines: end points of open chains are BOUNDARY; collections: Mod-2 rule over the elements) on a grid input",
                 "segseg": "LineIntersector: implementation differs from the exact segment-segment specification on a grid input",
                 "ccw": "Orientation::isCCW differs from the specification on a grid input"}[stream]
         failing(ctx, exe, stream, what + "; token %d impl %s spec %s" % (i, a, b), c2, impl, spec, sig)
